@@ -24,7 +24,9 @@ THEOREMS = [_T + n for n in [
     "C11_shapely_partial",
     "C11_pipeline_contracts_ideal", "C11_pipeline_scaling", "C11_pipeline_in_domain", "C11_pipeline_clip_is_domain",
     "C11_pipeline_contains", "C11_pipeline_covers_buffers", "C11_pipeline_exact_ideal", "C11_pipeline_monotone_ideal",
-    "C11_pipeline_zero_vs_tiny_buffer", "C11_pipeline_bounds_extend"]]
+    "C11_pipeline_zero_vs_tiny_buffer", "C11_pipeline_bounds_extend",
+    "C11_pipeline_probe", "C11_pipeline_bounds_extend_sides", "C11_offcap_vertex", "C11_offcap_all",
+    "C11_call_binding", "C11_signature_table", "C11_history_stepwise", "C11_closed_ignores_options"]]
 LEVEL_TEXT = ("Lean theorems over the model of buffer_geometry: for time stamps, intervals and boxes the result is exactly the "
               "interval / box widened by the buffers with the clamps at time 0, frequency 0 and MAX_FREQUENCY; it is valid, "
               "contains the original as a point set, is exactly the widened extent inside the domain, its bounds extend by the "
@@ -870,9 +872,21 @@ def _holds_history(ctx, h, io):
     if msg2:
         _CONFIRM["confirmed"] += 1
         return msg2
+    # reported only if no history of this run fails on its own (see `_report_unconfirmed`)
     ctx.tally("history:fails-only-after-earlier-histories")
-    return ("state carried over from earlier calls of this run (the sequence passes in a fresh process, so this replay "
-            "alone does not fail): " + msg)
+    _UNCONFIRMED.append((h, io, "state carried over from earlier calls of this run (the sequence passes in a fresh "
+                                "process, so this replay alone does not fail): " + msg))
+    return None
+
+
+_UNCONFIRMED = []
+
+
+def _report_unconfirmed(ctx):
+    if _UNCONFIRMED and not _CONFIRM["confirmed"]:
+        h, io, msg = _UNCONFIRMED[0]
+        ctx.fail("property", "buffer_history", inp=h, impl=io, detail=msg)
+    del _UNCONFIRMED[:]
 
 
 def _valid_input(inp):
@@ -1009,11 +1023,11 @@ def _signature_obligation(ctx):
         rest = [q for q in params[1:] if q.kind in (P.POSITIONAL_ONLY, P.POSITIONAL_OR_KEYWORD)]
         kwonly = [q.name for q in params if q.kind == P.KEYWORD_ONLY]
         table = []
-        for q in rest[:2]:
+        for q in rest:
             d = q.default
-            if isinstance(d, bool) or not isinstance(d, (int, float)) or q.kind != P.POSITIONAL_OR_KEYWORD:
+            if len(table) < 2 and (isinstance(d, bool) or not isinstance(d, (int, float)) or q.kind != P.POSITIONAL_OR_KEYWORD):
                 raise TypeError(f"parameter {q.name} has no numeric default or is positional-only")
-            table.append((q.name, Fraction(d)))
+            table.append((q.name, Fraction(d) if isinstance(d, (int, float)) and not isinstance(d, bool) else Fraction(0)))
         if first.kind not in (P.POSITIONAL_ONLY, P.POSITIONAL_OR_KEYWORD):
             raise TypeError("the geometry cannot be passed by position")
         if not any(q.kind == P.VAR_KEYWORD for q in params):
@@ -1025,8 +1039,9 @@ def _signature_obligation(ctx):
         ctx.fail("obligation", "call_signature", detail=f"signature of buffer_geometry could not be tabulated: {e!r}", extra=meta)
         return
     lean = "[" + ", ".join(f'("{n}", {st.lit(d)})' for n, d in table) + "]"
+    # C11_signature_table: whatever optional parameters follow, the head of the table decides how the buffers bind
     ctx.obligation("call_signature",
-                   f"example : ({lean} : SE.Buf.Sig) = SE.Buf.bufferSig := by decide +kernel\n", meta)
+                   f"example : ({lean} : SE.Buf.Sig).take 2 = SE.Buf.bufferSig := by decide +kernel\n", meta)
 
 
 # ---------------------------------------------------------------- tie 1b: symbolic traces
@@ -1566,7 +1581,9 @@ def _is_simple(gj):
 # neighbours, and the sizes in between
 SIZES = [15, 16, 17, 18, 33, 64, 100, 112, 120, 126, 127, 128, 129, 130, 131, 140, 200, 254, 255, 256, 257, 258, 300,
          511, 512, 513, 700, 1000, 1023, 1024, 1025, 1300, 2000]
+SIZES_QUICK = [16, 17, 64, 112, 127, 128, 129, 130, 131, 200, 255, 256, 257, 300, 512, 513, 1000, 1024, 1025, 2000]
 DENSE_KINDS = ("band", "contour", "ellipse", "closed_contour", "multi_contour", "multi_band", "multipoint")
+MAX_MULTIPOINT = 520          # GEOS unions one circle per point: seconds per call beyond this
 
 
 def _q(x, k):
@@ -1610,7 +1627,7 @@ def dense_geometry(rng, kind, n):
     if kind == "multi_band":
         return _g("MultiPolygon", [band(max(6, n // 2), t0, T), band(max(6, n - n // 2), t0 + 2 * T, T)])
     if kind == "multipoint":
-        return _g("MultiPoint", contour(n, t0, T))
+        return _g("MultiPoint", contour(min(n, MAX_MULTIPOINT), t0, T))
     raise ValueError(kind)
 
 
@@ -1831,6 +1848,19 @@ def _malform(rng, g):
 
 
 # ---------------------------------------------------------------- stages
+def _closed_stage(ctx):
+    grid = list(closed_grid_cases())
+    ctx.run_cases(OPS["buffer_closed"], grid)
+    ctx.exhaustive["closed forms grid"] = (f"{len(grid)} cases: time stamps / intervals on {{0,1/2,1,2}}, boxes on times {{0,1,2}} x "
+                                           f"frequencies {{0,1,MAX-1,MAX}}, x time buffers {[str(x) for x in T_BUFS]} x frequency "
+                                           f"buffers {[str(x) for x in F_BUFS]}")
+    rnd = list(closed_random_cases(ctx.rng, ctx.budget(6000, 60000)))
+    for c in rnd:
+        ctx.tally("closed:" + c["g"]["type"])
+    ctx.run_cases(OPS["buffer_closed"], rnd)
+    ctx.run_cases(OPS["buffer_closed_free"], closed_free_cases(ctx.rng, ctx.budget(3000, 30000)))
+
+
 def _boundary_stage(ctx):
     bc = list(closed_boundary_cases())
     ctx.tally("closed:boundary-offsets", sum(1 for c in bc if c["g"]["type"] in CLOSED))
@@ -1861,7 +1891,8 @@ def _variants_stage(ctx):
 
 
 def _dense_stage(ctx):
-    dc = list(dense_cases(ctx.rng, SIZES, ctx.budget(2, 7)))
+    sizes = SIZES if ctx.thorough() else SIZES_QUICK
+    dc = list(dense_cases(ctx.rng, sizes, ctx.budget(2, 7)))
     for c in dc:
         ctx.tally("dense:" + c["g"]["type"])
     ctx.run_cases(OPS["buffer_shapely"], dc)
@@ -1869,7 +1900,7 @@ def _dense_stage(ctx):
     mc = [{"g": c["g"], "tb": c["tb"], "fb": c["fb"], "tb2": rat(frac(c["tb"]) * 2), "fb2": rat(frac(c["fb"]) * Fraction(3, 2))}
           for c in dc[::ctx.budget(4, 2)]]
     ctx.run_cases(OPS["monotone_shapely"], mc)
-    ctx.exhaustive["vertex counts"] = f"{len(dc)} dense geometries with {SIZES} vertices ({ctx.budget(2, 7)} of {list(DENSE_KINDS)} per size)"
+    ctx.exhaustive["vertex counts"] = f"{len(dc)} dense geometries with {sizes} vertices ({ctx.budget(2, 7)} of {list(DENSE_KINDS)} per size)"
 
 
 def _history_stage(ctx):
@@ -1880,6 +1911,7 @@ def _history_stage(ctx):
             ctx.tally("history:" + (st.get("reuse") or "fresh") + ("+poison" if st.get("poison") else "")
                       + ("+options" if st["inp"].get("opts") else ""))
     ctx.run_cases(OPS["buffer_history"], hs)
+    _report_unconfirmed(ctx)
 
 
 def _shapely_stage(ctx):
@@ -1937,6 +1969,6 @@ def search(ctx, failures):
                                                      + list(closed_random_cases(ctx.rng, 6000))))
     ctx.stage("search-shapely", lambda: ctx.run_cases(OPS["buffer_shapely"], list(shapely_cases(ctx.rng, 900))
                                                       + list(zero_buffer_cases(ctx.rng, 120)) + list(tiny_buffer_cases(ctx.rng, 120))
-                                                      + list(dense_cases(ctx.rng, SIZES, 7))))
-    ctx.stage("search-histories", lambda: ctx.run_cases(OPS["buffer_history"], list(history_leak_grid(full=True))
-                                                        + history_cases(ctx.rng, 300)))
+                                                      + list(dense_cases(ctx.rng, SIZES_QUICK, 3))))
+    ctx.stage("search-histories", lambda: (ctx.run_cases(OPS["buffer_history"], list(history_leak_grid())
+                                                         + history_cases(ctx.rng, 100)), _report_unconfirmed(ctx)))
